@@ -24,7 +24,18 @@ def forced(rng, tier):
         long_ = r.choice([16, 24, 40])
         short = r.choice([0, 2, 4, 8])
         q = r.randrange(3)
-        if r.random() < 0.5:
+        x = r.random()
+        extra_handles = 0
+        if x < 0.2:
+            # ONE JOINED_END link object carried by two operations of different durations (two cooperating users)
+            base.append(['op', c, 'Wait', [q], 'A', f'f{long_}', 0, 0, [], None])
+            base.append(['op', c, 'Wait', [(q + 1) % 3], 'A', f'f{short}', 0, 0, [], [nh, 'JE']])
+            base.append(['op', c, 'Wait', [(q + 2) % 3], 'A', f'f{r.choice([6, 12, 20])}', 0, 0, [], [nh + 1, 'SAME']])
+            if r.random() < 0.5:
+                base.append(['op', c, 'Wait', [(q + 2) % 3], 'A', 'f8', 0, 0, [], [nh + 2, 'FB']])
+                extra_handles += 1
+            extra_handles += 1
+        elif x < 0.6:
             base.append(['op', c, 'Wait', [q], 'A', f'f{long_}', 0, 0, [], None])
             base.append(['op', c, 'Wait', [(q + 1) % 3], 'A', f'f{short}', 0, 0, [], [nh, r.choice(['JS', 'JE', 'FB'])]])
         else:
@@ -33,7 +44,7 @@ def forced(rng, tier):
         if nc > 1 and r.random() < 0.6:
             other = r.choice([x for x in range(nc) if x != c])
             base.append(['sub', other, c])
-            base.append(['op', other, 'Rx180', [q], 'A', None, 0, 0, [], [nh + 2, 'FB']])
+            base.append(['op', other, 'Rx180', [q], 'A', None, 0, 0, [], [nh + 2 + extra_handles, 'FB']])
         for i in range(nc):
             base.append(['list', i])
         out.append(base)
